@@ -403,7 +403,17 @@ type TokenShape struct {
 	PrefTypes []string // dynamic types stored in Operation.Preferences ("nil" included)
 	PrefArgs  []*absVal
 	Fn        string
+	// Shared: Operation objects this token carries that were NOT allocated by the
+	// action for this token (captured from the factory, a global, …): every token
+	// the rule ever emits then points at the same mutable Operation.
+	Shared []string
 }
+
+// state of the closure analysis in progress (set by analyseTokenClosure)
+var (
+	curFactoryEnv map[*types.Var]*absVal
+	curShared     *[]string
+)
 
 type LexRule struct {
 	Index   int
@@ -515,6 +525,8 @@ func extractLexTable(p *Prog, ops *OpTable) (*LexTable, error) {
 // and what can be stored in its Operation / AssignOperation /
 // CheckForPostTraverse / TokenType fields.
 func analyseTokenClosure(p *Prog, ops *OpTable, fn *ssa.Function, env map[*types.Var]*absVal) ([]TokenShape, string) {
+	curFactoryEnv = env
+	defer func() { curFactoryEnv, curShared = nil, nil }()
 	fvEnv := map[*ssa.FreeVar]*absVal{}
 	for _, fv := range fn.FreeVars {
 		for v, a := range env {
@@ -535,6 +547,7 @@ func analyseTokenClosure(p *Prog, ops *OpTable, fn *ssa.Function, env map[*types
 				continue
 			}
 			sh := TokenShape{Flag: "false", Fn: ssaFuncName(fn)}
+			curShared = &sh.Shared
 			for _, ref := range *al.Referrers() {
 				fa, ok := ref.(*ssa.FieldAddr)
 				if !ok {
@@ -711,6 +724,11 @@ func resolveOpTypeValue(p *Prog, ops *OpTable, v ssa.Value, fvEnv map[*ssa.FreeV
 		if o, ok := params[x]; ok {
 			return o, ""
 		}
+		if v, ok := x.Object().(*types.Var); ok && curFactoryEnv != nil {
+			if a := curFactoryEnv[v]; a != nil {
+				return absToOps(ops, a)
+			}
+		}
 	case *ssa.Phi:
 		var out []*OpType
 		for _, e := range x.Edges {
@@ -766,6 +784,30 @@ func opTypesOfOperation(p *Prog, ops *OpTable, fn *ssa.Function, v ssa.Value, fv
 		}
 		return out, prefs, ""
 	case *ssa.UnOp:
+		// load of a cell captured from the factory: the Operation was built once,
+		// outside the action; resolve what the factory stores into the cell
+		if fv, ok := x.X.(*ssa.FreeVar); ok && x.Op == token.MUL && fn.Parent() != nil {
+			if cell := boundValue(fn, fv); cell != nil {
+				if al, ok := cell.(*ssa.Alloc); ok && al.Referrers() != nil {
+					var out []*OpType
+					var prefs []string
+					for _, r := range *al.Referrers() {
+						if st, ok := r.(*ssa.Store); ok && st.Addr == al {
+							o, pr, prob := opTypesOfOperation(p, ops, fn.Parent(), st.Val, nil, depth+1)
+							if prob != "" {
+								return nil, nil, prob
+							}
+							out = appendOps(out, o)
+							prefs = append(prefs, pr...)
+							if c, isC := st.Val.(*ssa.Const); !(isC && c.IsNil()) && curShared != nil {
+								*curShared = append(*curShared, fmt.Sprintf("%s (built in %s)", fv.Name(), ssaFuncName(fn.Parent())))
+							}
+						}
+					}
+					return out, prefs, ""
+				}
+			}
+		}
 		// load of a local cell holding the *Operation (var assign *Operation)
 		if al, ok := x.X.(*ssa.Alloc); ok && x.Op == token.MUL {
 			var out []*OpType
@@ -848,8 +890,41 @@ func opTypesOfOperation(p *Prog, ops *OpTable, fn *ssa.Function, v ssa.Value, fv
 	return nil, nil, fmt.Sprintf("cannot resolve Operation value %s (%T) in %s", v.Name(), v, ssaFuncName(fn))
 }
 
+// boundValue: what the enclosing function binds to free variable fv of closure fn.
+func boundValue(fn *ssa.Function, fv *ssa.FreeVar) ssa.Value {
+	idx := -1
+	for i, f := range fn.FreeVars {
+		if f == fv {
+			idx = i
+		}
+	}
+	if idx < 0 || fn.Parent() == nil {
+		return nil
+	}
+	for _, b := range fn.Parent().Blocks {
+		for _, ins := range b.Instrs {
+			if mc, ok := ins.(*ssa.MakeClosure); ok && mc.Fn == ssa.Value(fn) && idx < len(mc.Bindings) {
+				return mc.Bindings[idx]
+			}
+		}
+	}
+	return nil
+}
+
 func prefTypeOfValue(v ssa.Value, fvEnv map[*ssa.FreeVar]*absVal) string {
 	switch x := v.(type) {
+	case *ssa.Parameter:
+		if vv, ok := x.Object().(*types.Var); ok && curFactoryEnv != nil {
+			if a := curFactoryEnv[vv]; a != nil {
+				switch a.kind {
+				case "nil":
+					return "nil"
+				}
+				if a.typ != nil {
+					return types.TypeString(a.typ, func(*types.Package) string { return "" })
+				}
+			}
+		}
 	case *ssa.MakeInterface:
 		return types.TypeString(x.X.Type(), func(*types.Package) string { return "" })
 	case *ssa.Const:
